@@ -19,6 +19,7 @@ type SpecEnv struct {
 	facts    []Term    // typing facts of values read (true by construction)
 	qdepth   int
 	depth    int
+	now      *State // inside old(...): the state of the enclosing clause (locals that do not exist at entry keep their current value)
 }
 
 type NilV struct{}
@@ -161,6 +162,15 @@ func (e *SpecEnv) ident(name string) Val {
 						}
 						return v
 					}
+					if e.now != nil {
+						// old(... i ...) with i a local declared after entry (a loop variable): old() switches the heap
+						// (and parameters) to their entry values; such a local has no entry value and keeps its current one
+						if v, ok := e.now.vars[o]; ok {
+							if _, isBox := v.(boxed); !isBox {
+								return v
+							}
+						}
+					}
 					if o.Parent() == c.pkg.types.Scope() {
 						return c.globalVar(e.cur, o)
 					}
@@ -301,6 +311,15 @@ func (e *SpecEnv) index(b, iv Val) Val {
 				bs = bvSort(8)
 			}
 			return Scalar{app(bs, "str.at", s.T, e.idxTerm(iv)), types.Typ[types.Uint8]}
+		}
+		if mt, isMap := s.Ty.Underlying().(*types.Map); isMap {
+			// m[k] in a clause: Go's value of the index expression (zero value when k is absent or m is nil)
+			if kc, isC := iv.(Const); isC {
+				iv = c.asScalar(kc, mt.Key())
+			}
+			if ks, ok := iv.(Scalar); ok {
+				return c.mapLoad(e.cur, Place{isMap: true, mapRef: s.T, mapKey: ks, mapTy: mt, ty: mt.Elem(), prefix: c.mapPrefix(mt)})
+			}
 		}
 	}
 	e.fail("cannot index %T", b)
@@ -798,6 +817,9 @@ func (e *SpecEnv) call(n *SCall) Val {
 		}
 		sub := e.sub()
 		sub.cur = e.old
+		if e.now == nil {
+			sub.now = e.cur
+		}
 		// locals shadowing: old(x) of a parameter resolves through vars (entry values)
 		v := sub.eval(n.Args[0])
 		e.facts = append(e.facts, sub.facts[len(e.facts):]...)
@@ -813,6 +835,10 @@ func (e *SpecEnv) call(n *SCall) Val {
 		case Scalar:
 			if s.T.Sort == SStr {
 				return Scalar{app(c.idxSort(), "str.len", s.T), tInt}
+			}
+			if mt, isMap := s.Ty.Underlying().(*types.Map); isMap {
+				l := Select(c.mapHeap(e.cur, c.mapPrefix(mt)+"#len", c.idxSort()), s.T)
+				return Scalar{Ite(Eq(s.T, Term{"0", SInt}), c.idx(0), l), tInt}
 			}
 		case NilV:
 			return Scalar{c.idx(0), tInt}
@@ -935,6 +961,34 @@ func (e *SpecEnv) call(n *SCall) Val {
 			return Ptr{s.Ref, s.Idx, t}
 		}
 		e.fail("unbox: interface value expected")
+	case "haskey":
+		// haskey(m, k): k is a key of map m in the state the clause is evaluated in
+		if len(n.Args) != 2 {
+			e.fail("haskey(m, k) expected")
+		}
+		if ms, ok := e.eval(n.Args[0]).(Scalar); ok {
+			if mt, isMap := ms.Ty.Underlying().(*types.Map); isMap {
+				kv := e.eval(n.Args[1])
+				if kc, isC := kv.(Const); isC {
+					kv = c.asScalar(kc, mt.Key())
+				}
+				ks, ok := kv.(Scalar)
+				if !ok {
+					e.fail("haskey: scalar key expected")
+				}
+				return Scalar{c.mapHas(e.cur, mt, ms.T, ks.T), tBool}
+			}
+		}
+		e.fail("haskey(m, k): map expected")
+	case "deref":
+		// deref(p): the value p points at (Go's *p) in the state the clause is evaluated in; p must be a pointer
+		if len(n.Args) != 1 {
+			e.fail("deref(p) expected")
+		}
+		if p, ok := e.eval(n.Args[0]).(Ptr); ok {
+			return e.specLoad(c.elemPrefix(p.Elem), p.Elem, p.Ref, p.Idx)
+		}
+		e.fail("deref(p): pointer expected")
 	case "wrap":
 		// wrap(x): x reduced into the range of its own Go type (two's complement) - the value Go's wrapping arithmetic
 		// yields for the mathematical result x. Identity in bv mode, where spec arithmetic already wraps.
